@@ -21,7 +21,9 @@ ASSUMPTIONS = [
     'the literal streams (all short histories, random long ones) query after every step without this sharing',
     'an exported object is seen through IDBusObject only: getObjectPath(), getInterfaces() and getAllProperties(name) '
     '(the latter is property C17); the test classes declare each interface on one class so D15 does not interfere, '
-    'and the declared (interface -> readable properties) table is checked against what the objects return',
+    'and the declared (interface -> readable properties) table is checked against what the objects return; '
+    'for an object of a derived class the declared interfaces are those of the class and of all its bases '
+    '(kinds 3-6; the classes of the hierarchy are created anew for every case)',
     'org.freedesktop.DBus.Peer.Ping is answered at any path by design (connection-level); it is not queried here',
     'ill-formed object paths (malformed stream: objects whose _objectPath was overwritten) are compared with the '
     'model only; the theorems and the oracle speak about histories over well-formed paths',
@@ -42,8 +44,18 @@ KINDS = [
     [('org.ex.A', {'r0': 'x', 'n0': 7}), ('org.freedesktop.DBus.Properties', {})],
     [('org.ex.B', {'rb': 'y'}), ('org.ex.C', {}), ('org.freedesktop.DBus.Properties', {})],
     [('org.ex.A', {'r0': 'z', 'n0': 8}), ('org.freedesktop.DBus.Properties', {})],
+    # kinds 3..6: one class hierarchy (HIER_FIRST..): a base class, a class derived from it that adds an interface,
+    # a class derived from that one, and a second class derived from the base.  A derived class exports the
+    # interfaces of all its bases (getInterfaces() order: most derived first).
+    [('org.ex.P', {'pb': 'b'}), ('org.freedesktop.DBus.Properties', {})],
+    [('org.ex.Q', {'qx': 5}), ('org.ex.P', {'pb': 'b'}), ('org.freedesktop.DBus.Properties', {})],
+    [('org.ex.R', {}), ('org.ex.Q', {'qx': 5}), ('org.ex.P', {'pb': 'b'}), ('org.freedesktop.DBus.Properties', {})],
+    [('org.ex.S', {'sv': 's'}), ('org.ex.P', {'pb': 'b'}), ('org.freedesktop.DBus.Properties', {})],
 ]
 NKINDS_MAIN = 2          # kinds used by the exhaustive stream; kind 2 (same class as 0, other values) appears in the literal streams
+HIER_FIRST = 3           # kinds >= HIER_FIRST: the class hierarchy; its classes are made anew for every case, so
+                         # that the history itself decides which class of the hierarchy is used first
+HIER_KINDS = [3, 4, 5, 6]
 
 
 def kinds_sexp():
@@ -98,7 +110,46 @@ def env():
         def dbus_Who(self):
             return '%d:%s' % (self.kind, self.getObjectPath())
 
-    def make(kind, path):
+    ifp = DBusInterface('org.ex.P', Method('Who', returns='s'), Property('pb', 's'))
+    ifq = DBusInterface('org.ex.Q', Method('Q1', returns='s'), Property('qx', 'i'))
+    ifr = DBusInterface('org.ex.R', Signal('Rang', 's'))
+    ifs_ = DBusInterface('org.ex.S', Property('sv', 's'))
+
+    def hier():
+        """a new copy of the class hierarchy: kind -> class"""
+        class Base(objects.DBusObject):
+            dbusInterfaces = [ifp]
+            pb = objects.DBusProperty('pb')
+
+            def __init__(self, path, kind):
+                objects.DBusObject.__init__(self, path)
+                self.kind = kind
+                self.pb = 'b'
+                if kind in (4, 5):
+                    self.qx = 5
+                if kind == 6:
+                    self.sv = 's'
+
+            def dbus_Who(self):
+                return '%d:%s' % (self.kind, self.getObjectPath())
+
+        class Ext(Base):
+            dbusInterfaces = [ifq]
+            qx = objects.DBusProperty('qx')
+
+            def dbus_Q1(self):
+                return 'q'
+
+        class Ext2(Ext):
+            dbusInterfaces = [ifr]
+
+        class Sib(Base):
+            dbusInterfaces = [ifs_]
+            sv = objects.DBusProperty('sv')
+
+        return {3: Base, 4: Ext, 5: Ext2, 6: Sib}
+
+    def make(kind, path, world=None):
         ok = True
         try:
             from txdbus import marshal
@@ -110,6 +161,8 @@ def env():
             o = ObjA(p0, 0, 'x', 7)
         elif kind == 1:
             o = ObjB(p0, 1, 'y')
+        elif kind >= HIER_FIRST:
+            o = world[kind](p0, kind)
         else:
             o = ObjA(p0, 2, 'z', 8)
         if not ok:
@@ -142,13 +195,17 @@ def env():
 
     # the declared table must be what the objects give through IDBusObject
     declared_ok = True
-    for k in range(len(KINDS)):
-        o = make(k, '/t')
-        got = [(i.name, dict(o.getAllProperties(i.name))) for i in o.getInterfaces()]
-        got = [(n, {a: (int(b) if isinstance(b, int) else str(b)) for a, b in p.items()}) for n, p in got]
+    w0 = hier()
+    for k in reversed(range(len(KINDS))):
+        try:
+            o = make(k, '/t', w0)
+            got = [(i.name, dict(o.getAllProperties(i.name))) for i in o.getInterfaces()]
+            got = [(n, {a: (int(b) if isinstance(b, int) else str(b)) for a, b in p.items()}) for n, p in got]
+        except Exception:
+            got = None           # the cases themselves will show it
         if got != KINDS[k]:
             declared_ok = False
-    _env.update(objects=objects, message=message, error=error, make=make, Conn=Conn, call_msg=call_msg,
+    _env.update(objects=objects, message=message, error=error, make=make, hier=hier, Conn=Conn, call_msg=call_msg,
                 declared_ok=declared_ok, xml_cache={})
     return _env
 
@@ -235,12 +292,13 @@ def run_impl(case, E):
     events, qpaths, every = case
     conn = E['Conn']()
     handler = E['objects'].DBusObjectHandler(conn)
+    world = E['hier']() if any(ev[0] == 0 and ev[2] >= HIER_FIRST for ev in events) else None
     out = []
     for idx, ev in enumerate(events):
         exc = None
         try:
             if ev[0] == 0:
-                handler.exportObject(E['make'](ev[2], ev[1]))
+                handler.exportObject(E['make'](ev[2], ev[1], world))
             else:
                 handler.unexportObject(ev[1])
         except Exception as e:
@@ -503,6 +561,37 @@ def gen_random(ctx, count, maxlen):
         yield [h, QPATHS, 1]
 
 
+HIER_PATHS = ['/a', '/a/b', '/a/bc', '/a/b/c']
+
+
+def gen_hierarchy(ctx, count):
+    """Objects whose classes form one hierarchy (base, derived, derived twice, sibling), the classes made anew
+    for every case: (1) every order in which the four classes are first used (4! histories exporting one object
+    of each, then unexporting them), (2) every pair of exports of two kinds of the hierarchy at two paths, each
+    followed by both unexports, (3) random histories mixing them with the unrelated classes."""
+    rng = ctx.rng
+    for perm in itertools.permutations(HIER_KINDS):
+        h = [[0, p, k] for p, k in zip(HIER_PATHS, perm)]
+        yield [h + [[1, p] for p in HIER_PATHS], QPATHS, 1]
+    for k1 in HIER_KINDS:
+        for k2 in HIER_KINDS:
+            yield [[[0, '/a', k1], [0, '/a/b', k2], [1, '/a'], [1, '/a/b']], QPATHS, 1]
+    for _ in range(count):
+        n = rng.randint(2, 7)
+        h = []
+        st = {}
+        for _ in range(n):
+            r = rng.random()
+            if r < 0.6 or not st:
+                k = rng.choice(HIER_KINDS) if rng.random() < 0.8 else rng.randrange(HIER_FIRST)
+                ev = [0, rng.choice(UNIVERSE), k]
+            else:
+                ev = [1, rng.choice(sorted(st))]
+            st = ideal_step(st, ev)
+            h.append(ev)
+        yield [h, QPATHS, 1]
+
+
 def gen_malformed(ctx, count):
     rng = ctx.rng
     for b in BAD_PATHS:
@@ -523,13 +612,19 @@ def run(ctx, res):
                 'shared by exported set: one case per (set reached, next event), signal/exception of that event compared, '
                 'and the %d paths %r each queried with an ordinary call, Introspect and GetManagedObjects the first time '
                 'a set is reached; (b) every history of length <= %d literally, queried after the last step; (c) random '
-                'histories of length 3..%d over 3 object kinds queried after every step; (d) a malformed stream with '
-                'ill-formed paths (model comparison only). A case is non-trivial if it exports something; distinct by hash'
-                % (depth, UNIVERSE, NKINDS_MAIN, len(QPATHS), QPATHS, lit, ctx.n(8, 12)))
+                'histories of length 3..%d over %d object kinds queried after every step; (d) a malformed stream with '
+                'ill-formed paths (model comparison only); (e) objects of one class hierarchy (base class, a class derived '
+                'from it adding an interface, one derived from that, a sibling; kinds %r, the classes made anew for every '
+                'case): every order of first use of the four classes, every pair of kinds at parent and child path, '
+                'random histories mixing them with unrelated classes, queried after every step - a derived class '
+                'exports its own interfaces and those of its bases whichever class was used first. '
+                'A case is non-trivial if it exports something; distinct by hash'
+                % (depth, UNIVERSE, NKINDS_MAIN, len(QPATHS), QPATHS, lit, ctx.n(8, 12), len(KINDS), HIER_KINDS))
     evaluate(ctx, gen_exhaustive(depth, NKINDS_MAIN), res)
     res.extra['exhaustive_stream'] = gen_exhaustive.stats
     evaluate(ctx, gen_literal(lit, NKINDS_MAIN), res)
     evaluate(ctx, gen_random(ctx, ctx.n(200, 5000), ctx.n(8, 12)), res)
+    evaluate(ctx, gen_hierarchy(ctx, ctx.n(60, 3000)), res)
     evaluate(ctx, gen_malformed(ctx, ctx.n(60, 2000)), res)
     res.exhaustive = True
     res.extra['exhaustive_scope'] = ('all export/unexport histories of length <= %d over 7 paths x %d classes up to '
